@@ -36,6 +36,9 @@ pub struct Program {
     /// 100 ms a candidate waits before it claims the election, still well below the election timeout
     #[serde(default)]
     pub slow_link: Option<(usize, usize, u64)>,
+    /// the link is slow from the first boot on (the start-up elections and joins run under it; no triggers follow)
+    #[serde(default)]
+    pub slow_from_boot: bool,
 }
 
 fn gen(rng: &mut Rng) -> Program {
@@ -75,7 +78,9 @@ fn gen(rng: &mut Rng) -> Program {
     } else {
         None
     };
-    Program { nodes, boot_gap_ms, latency_us, triggers, slow_link }
+    let slow_from_boot = slow_link.is_some() && rng.chance(1, 3);
+    let triggers = if slow_from_boot { vec![Trigger::None] } else { triggers };
+    Program { nodes, boot_gap_ms, latency_us, triggers, slow_link, slow_from_boot }
 }
 
 struct Outcome {
@@ -173,6 +178,10 @@ fn execute(prog: Program) -> Outcome {
         if prog.latency_us.1 > 0 {
             k.fault("link_latency");
         }
+        if let (Some((a, b, us)), true) = (prog.slow_link, prog.slow_from_boot) {
+            k.net.link_latency.insert((w.nodes[a].idx, w.nodes[b].idx), (us * 1000, us * 1000));
+            k.fault("slow_link_from_boot");
+        }
     });
     let addrs = w.all_tcp();
     for i in 0..prog.nodes {
@@ -185,7 +194,9 @@ fn execute(prog: Program) -> Outcome {
     let class = format!(
         "{}:{}",
         if mingap < 1_100 { "boot-within-initial-election-delay" } else { "boot-staggered" },
-        if prog.slow_link.is_some() {
+        if prog.slow_link.is_some() && prog.slow_from_boot {
+            "slow-link-at-boot"
+        } else if prog.slow_link.is_some() {
             "slow-link"
         } else if prog.latency_us.1 > 0 {
             "latency"
@@ -198,7 +209,7 @@ fn execute(prog: Program) -> Outcome {
         return out;
     }
     // the link turns slow once the cluster has formed (the elections judged under it are those of the triggers)
-    if let Some((a, b, us)) = prog.slow_link {
+    if let (Some((a, b, us)), false) = (prog.slow_link, prog.slow_from_boot) {
         with(|k| {
             k.net.link_latency.insert((w.nodes[a].idx, w.nodes[b].idx), (us * 1000, us * 1000));
             k.fault("slow_link_one_direction");
